@@ -283,6 +283,7 @@ func c17Pool() []c17Variant {
 		v("to-many-comma-split-2", base, func(r j.Resource) { r.Set("many", []string{"a", "b,"}) }),
 		v("to-many-empty", base, func(r j.Resource) { r.Set("many", []string{}) }),
 		v("id", base, func(r j.Resource) { r.Set("id", "i2") }),
+		v("id-case", base, func(r j.Resource) { r.Set("id", "I1") }),
 		v("extra-attr", func() TypeD { d := base(); d.Attrs = append(d.Attrs, AttrD{"e", str}); return d }, nil),
 		v("missing-attr", func() TypeD { d := base(); d.Attrs = d.Attrs[:2]; return d }, nil),
 		v("missing-rel", func() TypeD { d := base(); d.Rels = d.Rels[:1]; return d }, nil),
